@@ -353,7 +353,7 @@ def main(tier, seed):
                      "UNIQUAC mismatches are attributed to K1 only if the L0 signature holds on the case and the mismatch "
                      "disappears under the symmetric-gamma_2 stub"],
         technique="explicit-state simulation relation between a run and its relabelled twin, exhaustive over finite lattices; known-finding attribution by stub")
-    mixes = ["H2O_EtOH", "MeOH_DMC", "S2", "S4"] if q else list(U.ALL_MIXTURES)
+    mixes = ["H2O_EtOH", "MeOH_DMC", "S2", "S5"] if q else list(U.ALL_MIXTURES)
     xs = core.lat([0.05, 0.3, 0.5, 0.7, 0.95], seed) if q else core.lat([0.02, 0.05, 0.1, 0.3, 0.5, 0.7, 0.9, 0.95, 0.98], seed)
     ts = core.lat([293.15, 333.15, 373.15], seed) if q else core.lat([273.15, 293.15, 313.15, 333.15, 353.15, 373.15, 400.0], seed)
 
